@@ -93,6 +93,10 @@ class Unsupported(Sub):
             raw=st.one_of(anything(), anything(), anything(), anything(), typed_impl, clear_feature, G.standard_requests()),
             early=weighted([(None, 6), (0, 1), (1, 1)]),
             again=weighted([(0, 6), (1, 1)]),
+            # the host may abandon a transfer after its first `cut` transactions (0 = runs to completion) or lose the
+            # ACK of one of its IN packets: the NEXT request must still be judged on its own merits
+            cut=weighted([(0, 7), (1, 2), (2, 1), (3, 1)]),
+            noack=weighted([(0, 7), (1, 1), (2, 1)]),
             obs=st.lists(st.integers(0, len(OBSERVE) - 1), min_size=0, max_size=3),
         ))
         return st.fixed_dictionaries(dict(
@@ -112,7 +116,8 @@ class Unsupported(Sub):
                     b.item(it)
         self.n_pre = len(b.transfers)
         for r in case["reqs"]:
-            b.item(dict(k="ctrl", req=canonical(r["raw"]), early=r["early"], again=r["again"]))
+            b.item(dict(k="ctrl", req=canonical(r["raw"]), early=r["early"], again=r["again"],
+                        cut=r.get("cut", 0), noack=r.get("noack", 0)))
             for o in r["obs"]:
                 for it in OBSERVE[o]:
                     b.item(it)
@@ -142,6 +147,9 @@ class Unsupported(Sub):
             return fail(err, signature="stalled-clear-feature-stays-armed" if armed else "out-stream-mismatch")
         labels = set()
         stalled = 0
+        for prev, tr in zip(body, body[1:]):
+            if prev["abandoned"] and tr["info"]["kind"] == "unsupported":
+                labels.add("unsupported-after-abandoned-transfer")
         for tr in body:
             bm, breq, wvalue, windex, wlength = tr["req"]
             if tr["info"]["kind"] == "unsupported":
